@@ -64,6 +64,8 @@ def classifiers(classes, cost, seed):
     out = [
         ("ParzenWindowClassifier", ParzenWindowClassifier(**kw), False),
         ("ParzenWindowClassifier[prior]", ParzenWindowClassifier(class_prior=0.5, **kw), False),
+        ("ParzenWindowClassifier[gamma=mean]", ParzenWindowClassifier(metric_dict={"gamma": "mean"}, **kw), False),
+        ("SlidingWindowClassifier[gamma=mean]", SlidingWindowClassifier(ParzenWindowClassifier(metric_dict={"gamma": "mean"}, **kw), **kw), False),
         ("MixtureModelClassifier", MixtureModelClassifier(mixture_model=BayesianGaussianMixture(n_components=2, random_state=seed), **kw), False),
         ("SklearnClassifier[GaussianNB]", SklearnClassifier(GaussianNB(), **kw), False),
         ("SklearnClassifier[LogisticRegression]", SklearnClassifier(LogisticRegression(), **kw), False),
@@ -79,8 +81,8 @@ def classifiers(classes, cost, seed):
 
 def run(ctx):
     warnings.simplefilter("ignore")
-    ctx.extra["rule"] = ("11 classifier configurations x class lists (sorted, unsorted declared order, strings, non 0..K-1 numbers) x cost matrices (None, "
-                         "asymmetric integer) x training sets (no labels, one class present, declared-but-unseen classes, zero / large weights) x query "
+    ctx.extra["rule"] = ("13 classifier configurations x class lists (sorted, unsorted declared order, strings, non 0..K-1 numbers) x cost matrices (None, "
+                         "asymmetric integer) x training sets (no labels, exactly one label, one class present, declared-but-unseen classes, zero / large weights) x query "
                          "points near and far; scripted sklearn estimator with dyadic probabilities for the column re-mapping; non-trivial = >= 3 classes "
                          "or an asymmetric cost matrix; distinct = (classifier, classes, cost, data)")
     ctx.trusted += ["probability VALUES of real estimators are inputs (oracles); what is modelled is normalisation, column re-mapping, cost permutation and decision"]
@@ -99,11 +101,14 @@ def run(ctx):
         seed = int(rng.integers(0, 1000))
         n = int(rng.integers(4, 12))
         X = rng.normal(size=(n, 2)) + rng.integers(0, 2, size=(n, 1)) * 3
-        scen = str(rng.choice(["normal", "no_labels", "one_class", "unseen", "weights"]))
-        present = sorted_cls if scen in ("normal", "weights") else ([] if scen == "no_labels" else sorted_cls[:1] if scen == "one_class" else sorted_cls[:-1])
+        scen = str(rng.choice(["normal", "no_labels", "one_label", "one_class", "unseen", "weights"]))
+        present = sorted_cls if scen in ("normal", "weights", "one_label") else ([] if scen == "no_labels" else sorted_cls[:1] if scen == "one_class" else sorted_cls[:-1])
         str_lab = isinstance(classes[0], str)
         missing = "nan" if str_lab else NAN
         yv = [present[int(rng.integers(len(present)))] if present and rng.random() < 0.7 else missing for _ in range(n)]
+        if scen == "one_label":          # exactly one labeled sample (bandwidth heuristics, priors and encoders at their smallest input)
+            yv = [missing] * n
+            yv[int(rng.integers(n))] = sorted_cls[int(rng.integers(K))]
         y = np.array(yv, dtype=(str if str_lab else float)) if not str_lab else np.array(yv)
         sw = rng.choice([0.0, 1.0, 1e6, 0.5], size=n) if scen == "weights" else None
         Xq = np.vstack([X[:3], rng.normal(size=(2, 2)) * 50])
